@@ -1001,4 +1001,328 @@ theorem escape_go_string_decodes_string (v : String) :
   have := escape_go_string_decodes v.toList []
   simpa [escapeGoString] using this
 
+/-! ## `no_break_inserts_semicolon`
+
+Go's lexer inserts a semicolon at a newline when the last token of the line is an identifier, a literal, one of
+the keywords `break continue fallthrough return`, or one of `++ -- ) ] }` (spec "Semicolons").  The printer has
+no optional break (`itemDoc_hard`), so the only breaks are its `hardline`s; the theorem is about those that fall
+INSIDE an expression (in a struct literal): each follows `{` or `,`, after which nothing is inserted — the
+expression is never cut by the semicolon rule, whatever precedes it.  (Between statements a semicolon is what Go's
+grammar wants there; that the statement-level breaks sit only at statement boundaries is validated by the
+parse-back oracle, not proved.) -/
+
+def semiAfter : Tok → Bool
+  | .ident _ | .num _ | .str _ => true
+  | .kw s => s == "break" || s == "continue" || s == "fallthrough" || s == "return"
+  | .sym s => s == "++" || s == "--" || s == ")" || s == "]" || s == "}"
+
+/-- no newline of the stream follows a token that triggers semicolon insertion (`prev` = the last token seen);
+    a newline before any token counts as unsafe -/
+def breaksSafe : Option Tok → TS → Bool
+  | _, [] => true
+  | _, some t :: r => breaksSafe (some t) r
+  | some t, none :: r => !semiAfter t && breaksSafe (some t) r
+  | none, none :: _ => false
+
+/-- "after these items the scan continues as if from `p'`" -/
+def Thru (l : TS) : Prop := ∀ p, ∃ p', ∀ rest, breaksSafe p (l ++ rest) = breaksSafe p' rest
+
+theorem thru_nil : Thru [] := fun p => ⟨p, fun _ => rfl⟩
+theorem thru_tok (t : Tok) : Thru [some t] := fun _ => ⟨some t, fun _ => by simp [breaksSafe]⟩
+theorem thru_append {a b : TS} (ha : Thru a) (hb : Thru b) : Thru (a ++ b) := by
+  intro p
+  obtain ⟨p1, h1⟩ := ha p
+  obtain ⟨p2, h2⟩ := hb p1
+  exact ⟨p2, fun rest => by rw [List.append_assoc, h1, h2]⟩
+theorem thru_allTok : ∀ l : TS, (∀ x ∈ l, x ≠ none) → Thru l
+  | [], _ => thru_nil
+  | none :: _, h => absurd rfl (h none List.mem_cons_self)
+  | some t :: l, h => by
+      have := thru_append (thru_tok t) (thru_allTok l (fun x hx => h x (List.mem_cons_of_mem _ hx)))
+      simpa using this
+
+/-- a token after which no semicolon is inserted, then a newline -/
+theorem thru_tok_nl (t : Tok) (ht : semiAfter t = false) : Thru [some t, none] :=
+  fun _ => ⟨some t, fun _ => by simp [breaksSafe, ht]⟩
+
+/-- documents without any newline -/
+def Doc.NoNl : Doc → Prop
+  | .hardline | .line => False
+  | .cat a b => a.NoNl ∧ b.NoNl
+  | .nest _ d | .group d => d.NoNl
+  | _ => True
+
+@[simp] theorem noNl_append (a b : Doc) : (a ++ b).NoNl ↔ a.NoNl ∧ b.NoNl := by
+  show (Doc.append a b).NoNl ↔ _
+  cases a <;> cases b <;> simp [Doc.append, Doc.NoNl]
+@[simp] theorem noNl_tokD (t : Tok) : (tokD t).NoNl := by unfold tokD; split <;> simp [Doc.NoNl]
+@[simp] theorem noNl_kw (s : String) : (kw s).NoNl := noNl_tokD _
+@[simp] theorem noNl_sym (s : String) : (sym s).NoNl := noNl_tokD _
+@[simp] theorem noNl_ident (s : String) : (ident s).NoNl := noNl_tokD _
+@[simp] theorem noNl_sp : Doc.sp.NoNl := trivial
+@[simp] theorem noNl_nil : Doc.nil.NoNl := trivial
+
+theorem noNl_foldl (sep : Doc) (hs : sep.NoNl) : ∀ (ds : List Doc) (acc : Doc), acc.NoNl → (∀ d ∈ ds, d.NoNl) →
+    (ds.foldl (fun acc x => acc ++ sep ++ x) acc).NoNl := by
+  intro ds
+  induction ds with
+  | nil => intro acc h _; exact h
+  | cons d ds ih =>
+    intro acc h hd
+    apply ih
+    · simp [h, hs, hd d (List.mem_cons_self)]
+    · intro x hx; exact hd x (List.mem_cons_of_mem _ hx)
+
+theorem noNl_intersperse (sep : Doc) (hs : sep.NoNl) (ds : List Doc) (hd : ∀ d ∈ ds, d.NoNl) : (intersperse sep ds).NoNl := by
+  cases ds with
+  | nil => trivial
+  | cons d ds => exact noNl_foldl sep hs ds d (hd d List.mem_cons_self) (fun x hx => hd x (List.mem_cons_of_mem _ hx))
+
+@[simp] theorem noNl_toksDoc (ts : List Tok) : (toksDoc ts).NoNl := by
+  induction ts with
+  | nil => trivial
+  | cons t ts ih =>
+    cases ts with
+    | nil => simp [toksDoc]
+    | cons u us => simp [toksDoc, ih]
+
+@[simp] theorem noNl_numDoc (s : String) : (numDoc s).NoNl := by
+  unfold numDoc
+  split
+  · exact (noNl_append _ _).2 ⟨noNl_sym _, noNl_tokD _⟩
+  · exact noNl_tokD _
+
+theorem noNl_commaSep : (sym "," ++ Doc.sp).NoNl := by simp
+
+mutual
+theorem typeDoc_noNl : ∀ t : GTy, (typeDoc t).NoNl
+  | .func ps r => by
+      have h1 := noNl_intersperse _ noNl_commaSep _ (typeDocs_noNl ps)
+      have h2 := typeDoc_noNl r
+      cases r <;> simp_all [typeDoc]
+  | .array _ e => by have := typeDoc_noNl e; simp [typeDoc, this]
+  | .slice e => by have := typeDoc_noNl e; simp [typeDoc, this]
+  | .ptr e => by have := typeDoc_noNl e; simp [typeDoc, this]
+  | .void | .unit | .bool | .int _ _ | .float _ | .string | .struct _ _ | .name _ => by simp [typeDoc]
+theorem typeDocs_noNl : ∀ ts : List GTy, ∀ d ∈ typeDocs ts, d.NoNl
+  | [] => by simp [typeDocs]
+  | t :: ts => by
+      have h1 := typeDoc_noNl t
+      have h2 := typeDocs_noNl ts
+      simp [typeDocs]; exact ⟨h1, h2⟩
+end
+
+theorem items_noNl : ∀ d : Doc, d.NoNl → ∀ x ∈ d.items, x ≠ none
+  | .nil, _ | .sp, _ => by simp [Doc.items]
+  | .tok t, _ => by simp [Doc.items]
+  | .hardline, h | .line, h => absurd h (by simp [Doc.NoNl])
+  | .cat a b, h => by
+      intro x hx
+      simp only [Doc.items, List.mem_append] at hx
+      rcases hx with hx | hx
+      · exact items_noNl a h.1 x hx
+      · exact items_noNl b h.2 x hx
+  | .nest _ d, h => by simpa [Doc.items] using items_noNl d h
+  | .group d, h => by simpa [Doc.items] using items_noNl d h
+
+theorem thru_noNl (d : Doc) (h : d.NoNl) : Thru d.items := thru_allTok _ (items_noNl d h)
+
+theorem semiAfter_lbrace : semiAfter (.sym "{") = false := by decide
+theorem semiAfter_comma : semiAfter (.sym ",") = false := by decide
+
+theorem items_nestD (n : Nat) (d : Doc) : (nestD n d).items = d.items := by cases d <;> rfl
+
+
+theorem flatMap_lines (d : Doc) (ds : List Doc) :
+    d.items ++ ds.flatMap (fun x => [none] ++ x.items) ++ [none] = (d :: ds).flatMap (fun x => x.items ++ [none]) := by
+  induction ds generalizing d with
+  | nil => simp
+  | cons e es ih =>
+    have := ih e
+    simp only [List.flatMap_cons, List.append_assoc] at this ⊢
+    rw [← this]
+
+macro "thru_solve" : tactic =>
+  `(tactic| repeat (first | assumption | exact thru_noNl _ (by simp [typeDoc_noNl, panicTok]) | apply thru_append))
+
+mutual
+theorem thru_expr : ∀ e : GExpr, exprParenFree e = true → Thru (exprDoc e).items
+  | .nil _, _ | .unitv _, _ | .var _ _, _ | .bool _, _ | .int _ _, _ | .float _ _, _ | .str _, _ =>
+      thru_noNl _ (by simp [exprDoc])
+  | .voidv _, hp | .blocke _ _ _, hp => by simp [exprParenFree] at hp
+  | .call _ f args, hp => by
+      simp only [exprParenFree, Bool.and_eq_true, decide_eq_true_eq] at hp
+      have h1 := thru_expr f hp.1.2
+      have h2 := thru_args args hp.2
+      simp only [exprDoc, items_append]
+      thru_solve
+  | .un _ _ e, hp => by
+      simp only [exprParenFree, Bool.and_eq_true, decide_eq_true_eq] at hp
+      have h1 := thru_expr e hp.2
+      simp only [exprDoc, items_append]
+      thru_solve
+  | .bin _ _ l r, hp => by
+      simp only [exprParenFree, Bool.and_eq_true, decide_eq_true_eq] at hp
+      have h1 := thru_expr l hp.1.2
+      have h2 := thru_expr r hp.2
+      simp only [exprDoc, items_append]
+      thru_solve
+  | .field _ _ o, hp => by
+      simp only [exprParenFree, Bool.and_eq_true, decide_eq_true_eq] at hp
+      have h1 := thru_expr o hp.2
+      simp only [exprDoc, items_append]
+      thru_solve
+  | .index _ a i, hp => by
+      simp only [exprParenFree, Bool.and_eq_true, decide_eq_true_eq] at hp
+      have h1 := thru_expr a hp.1.2
+      have h2 := thru_expr i hp.2
+      simp only [exprDoc, items_append]
+      thru_solve
+  | .cast ty e, hp => by
+      simp only [exprParenFree, Bool.and_eq_true, decide_eq_true_eq] at hp
+      have h1 := thru_expr e hp.2
+      simp only [exprDoc, items_append]
+      thru_solve
+  | .slit ty [], _ => thru_noNl _ (by simp [exprDoc])
+  | .slit ty (f :: fs), hp => by
+      simp only [exprParenFree] at hp
+      have h1 := thru_fields (f :: fs) hp
+      simp only [exprDoc, items_append, items_nestD]
+      rw [fieldDocs.eq_def] at h1 ⊢
+      cases f with
+      | mk n e =>
+        simp only at h1 ⊢
+        rw [items_intersperse_cons]
+        -- `T {` newline, the lines, `}`
+        have hre : ∀ (a b c x y : TS), a ++ b ++ (c ++ x ++ c) ++ y = a ++ (b ++ c) ++ (x ++ c) ++ y := by
+          intro a b c x y; simp [List.append_assoc]
+        show Thru ((toksDoc (typeNameToks ty)).items ++ (sym "{").items ++
+          (Doc.hardline.items ++ (_ ++ (fieldDocs fs).flatMap (fun x => Doc.hardline.items ++ x.items)) ++ Doc.hardline.items) ++ (sym "}").items)
+        rw [hre]
+        have hl : (sym "{").items ++ Doc.hardline.items = [some (.sym "{"), none] := by decide
+        rw [hl, show Doc.hardline.items = [none] from rfl, flatMap_lines]
+        have h0 := thru_tok_nl _ semiAfter_lbrace
+        thru_solve
+  | .alit ty elems, hp => by
+      simp only [exprParenFree, Bool.and_eq_true] at hp
+      have h2 := thru_args elems hp.2
+      cases ty with
+      | array n t =>
+        rw [exprDoc, items_append, items_append]
+        exact thru_append (thru_append (thru_noNl _ (by simp [typeDoc_noNl])) h2) (thru_noNl _ (by simp))
+      | slice t =>
+        rw [exprDoc, items_append, items_append]
+        exact thru_append (thru_append (thru_noNl _ (by simp [typeDoc_noNl])) h2) (thru_noNl _ (by simp))
+      | _ => exact absurd hp.1 (by simp [isArrTy])
+theorem thru_args : ∀ es : List GExpr, exprsParenFree es = true → Thru (intersperse (sym "," ++ Doc.sp) (exprDocs es)).items
+  | [], _ => by simpa [exprDocs, intersperse, Doc.items] using thru_nil
+  | e :: es, hp => by
+      simp only [exprsParenFree, Bool.and_eq_true] at hp
+      rw [exprDocs, items_intersperse_cons]
+      exact thru_append (thru_expr e hp.1) (thru_more es hp.2)
+theorem thru_more : ∀ es : List GExpr, exprsParenFree es = true →
+    Thru ((exprDocs es).flatMap fun x => (sym "," ++ Doc.sp).items ++ x.items)
+  | [], _ => by simpa [exprDocs] using thru_nil
+  | e :: es, hp => by
+      simp only [exprsParenFree, Bool.and_eq_true] at hp
+      rw [exprDocs, List.flatMap_cons]
+      have h1 := thru_expr e hp.1
+      have h2 := thru_more es hp.2
+      thru_solve
+theorem thru_fields : ∀ fs : List GField, fieldsParenFree fs = true → Thru ((fieldDocs fs).flatMap fun x => x.items ++ [none])
+  | [], _ => by simpa [fieldDocs] using thru_nil
+  | .mk n e :: fs, hp => by
+      simp only [fieldsParenFree, Bool.and_eq_true] at hp
+      rw [fieldDocs, List.flatMap_cons]
+      have h1 := thru_expr e hp.1
+      have h2 := thru_fields fs hp.2
+      have h3 : Thru ((sym ",").items ++ [none]) := by
+        rw [show (sym ",").items ++ [none] = [some (.sym ","), none] from by decide]
+        exact thru_tok_nl _ semiAfter_comma
+      have hA : Thru ((ident n ++ sym ":" ++ Doc.sp).items ++ (exprDoc e).items) :=
+        thru_append (thru_noNl _ (by simp)) h1
+      have hsplit : (ident n ++ sym ":" ++ Doc.sp ++ exprDoc e ++ sym ",").items ++ [none] =
+          ((ident n ++ sym ":" ++ Doc.sp).items ++ (exprDoc e).items) ++ ((sym ",").items ++ [none]) := by
+        simp [items_append, List.append_assoc]
+      rw [hsplit]
+      exact thru_append (thru_append hA h3) h2
+end
+
+/-- **No line break the layout puts inside an expression inserts a semicolon**: scanning the tokens and newlines
+    of a paren-free expression's document — after any preceding token `p` (`return`, `=`, `(`, …) — every newline
+    follows `{` or `,`, tokens after which Go's automatic-semicolon rule inserts nothing. -/
+theorem no_break_inserts_semicolon (e : GExpr) (hp : exprParenFree e = true) (p : Option Tok) :
+    breaksSafe p (exprDoc e).items = true := by
+  obtain ⟨p', h⟩ := thru_expr e hp p
+  have := h []
+  simpa [breaksSafe] using this
+
+/-! ## non-vacuity -/
+
+section Examples
+private def v (x : String) : GExpr := .var x (.int 32 true)
+private def i32 : GTy := .int 32 true
+
+/-- `a + b * f(c, -1)[i].x < !d` -/
+private def ex1 : GExpr :=
+  .bin .less .bool
+    (.bin .add i32 (v "a") (.bin .mul i32 (v "b")
+      (.field "x" i32 (.index i32 (.call i32 (v "f") [v "c", .int "-1" i32]) (v "i")))))
+    (.un .not .bool (v "d"))
+
+example : inSubset ex1 = true ∧ exprParenFree ex1 = true := by decide
+
+example : (exprDoc ex1).items.length = 19 := by decide
+
+/-- the hypotheses of `print_expr_roundtrip` hold on `ex1`; its 19 tokens parse back to it -/
+example : Parse (.bin 1) (exprDoc ex1).items (.e (erase ex1)) [] :=
+  print_expr_roundtrip_whole ex1 (by decide) (by decide)
+
+/-- `(a + b) * c` is NOT paren-free, and indeed the printer gives it the tokens of `a + (b * c)`, another tree:
+    the hypothesis of the theorem is necessary -/
+private def bad : GExpr := .bin .mul i32 (.bin .add i32 (v "a") (v "b")) (v "c")
+private def good : GExpr := .bin .add i32 (v "a") (.bin .mul i32 (v "b") (v "c"))
+example : exprParenFree bad = false ∧ exprParenFree good = true ∧ (exprDoc bad).items = (exprDoc good).items := by decide
+example : Parse (.bin 1) (exprDoc bad).items (.e (erase good)) [] := by
+  rw [show (exprDoc bad).items = (exprDoc good).items from by decide]
+  exact print_expr_roundtrip_whole good (by decide) (by decide)
+
+/-- `- -x` would print `--x` (Go's decrement token): rejected by `exprParenFree` and seen by `glueFree` -/
+example : exprParenFree (.un .neg i32 (.un .neg i32 (v "x"))) = false := by decide
+example : glueFree (exprDoc (.un .neg i32 (.un .neg i32 (v "x")))).pieces = false := by decide
+example : glueFree (exprDoc ex1).pieces = true := by decide
+
+/-- a left-leaning chain `x + x + … + x` of `n + 1` operands -/
+private def chain : Nat → GExpr
+  | 0 => v "x"
+  | n + 1 => .bin .add i32 (chain n) (v "x")
+
+-- an expression well over 120 columns (41 operands, 40 operators, a space around each operator: 161 columns):
+-- paren-free, parses back, and its text is the same at widths 40 and 120
+set_option maxRecDepth 8000 in
+example : (exprDoc (chain 40)).items.length = 81 ∧ inSubset (chain 40) = true ∧ exprParenFree (chain 40) = true := by
+  decide +kernel
+example : printExpr 40 (chain 40) = printExpr 120 (chain 40) := render_width_irrelevant_expr 40 120 _
+
+/-- every class of character `escape_go_string` distinguishes -/
+example : escapeChars ['a', '"', '\\', '\n', '\r', '\t', Char.ofNat 1, Char.ofNat 0x7f, Char.ofNat 0x9f, 'é', '世'] =
+    "a\\\"\\\\\\n\\r\\t\\u0001\\u007f\\u009fé世".toList := by decide
+example : lexStr .normal ("a\\\"\\\\\\n\\u0001é\" + x".toList) = some (['a', '"', '\\', '\n', Char.ofNat 1, 'é'], " + x".toList) := by
+  decide
+
+/-- a struct literal breaks its lines after `{` and `,` only -/
+private def lit : GExpr := .slit (.name "Point") [.mk "x" (v "a"), .mk "y" (.bin .add i32 (v "b") (v "c"))]
+example : (exprDoc lit).items =
+    [some (.ident "Point"), some (.sym "{"), none, some (.ident "x"), some (.sym ":"), some (.ident "a"), some (.sym ","), none,
+     some (.ident "y"), some (.sym ":"), some (.ident "b"), some (.sym "+"), some (.ident "c"), some (.sym ","), none,
+     some (.sym "}")] := by decide
+example : breaksSafe (some (.kw "return")) (exprDoc lit).items = true :=
+  no_break_inserts_semicolon lit (by decide) _
+/-- the seeded change `C02-printer-breaks-before-operator` in this vocabulary: a break after an operand is unsafe -/
+example : breaksSafe none [some (.ident "a"), none, some (.sym "+"), some (.ident "b")] = false := by decide
+/-- … and a document with a soft break is not `Hard`, so `render_width_irrelevant` would no longer apply -/
+example : ¬ (Doc.group (ident "a" ++ Doc.line ++ sym "+" ++ Doc.sp ++ ident "b")).Hard := by simp [Doc.Hard]
+
+end Examples
+
 end Goml.GoPrint
